@@ -180,4 +180,28 @@ OBL = [
          reason="level word + one signed public key per upper level + the message signature; each part is bounded by the formula lengths of its own level's limits, whose sum is the buffer's capacity and fits the u16 length field",
          requires=["GF-LIMITS", "params-only-from-decoder", "T-LIMIT-SIGLEN", "expansion-one-key-per-level"]),
 
+    # ---------------- fast-verify search (feature fast_verify; C15) -----------------------------------------------------
+    dict(id="fv-eval", fn=r"^lm_ots::parameters::LmotsParameter::fast_verify_eval$", site=r".", operand=None,
+         reason="the cache is [coef_helper(i, w) for i in 0..p] of the same parameter: digit i < 8n/w reads digest byte i*w/8 < n of an n-byte hash output, digit i >= 8n/w reads "
+                "checksum byte i*w/8 - n in 0..1, shifts are <= 7, every term is <= 2^w-1 so the running sum stays <= p*(2^w-1) <= 65535 and the first-loop sum <= (8n/w)*(2^w-1) = cache.1",
+         requires=["T-FVEVAL", "fv-init-shape", "fv-helper-matches-table", "fv-eval-shape", "fv-cache-from-init-of-same-parameter", "T-HASHOUT"]),
+    dict(id="fv-worker-copy", fn=r"^lm_ots::signing::thread_optimize_message_hash$", site=r"call:core::slice::copy_from_slice", operand=None,
+         reason="both vectors hold exactly H::OUTPUT_SIZE bytes: created empty, pushed once per iteration of 0..output size, afterwards only overwritten by hash outputs / copy_from_slice",
+         requires=["fv-worker-vectors-have-output-size", "T-HASHOUT"]),
+    dict(id="fv-worker-push", fn=r"^lm_ots::signing::thread_optimize_message_hash$", site=r"call:tinyvec::arrayvec::ArrayVec::push", operand=None,
+         reason="one push per iteration of 0..output size (<= 32 = capacity) into a vector created empty",
+         requires=["fv-worker-vectors-have-output-size", "T-HASHOUT"]),
+    dict(id="fv-take-result", fn=r"^lm_ots::signing::optimize_message_hash$", site=r"call:core::slice::copy_from_slice", operand=None,
+         reason="destination is the H::OUTPUT_SIZE-byte trailer (interval analysis: split at len - n), source is a worker's randomizer of exactly H::OUTPUT_SIZE bytes",
+         requires=["fv-worker-vectors-have-output-size", "fv-results-only-from-workers", "fv-trailer-len-is-output-size"]),
+    dict(id="fv-message-none", fn=r"^lm_ots::signing::optimize_message_hash(::\{closure#0\})?$", site=r"call:(core::panicking::assert_failed|core::result::Result::unwrap)", operand=r"^(adt|try_from\(message\))$",
+         reason="below sign_mut the optional immutable message is None: the closure converting it never runs and the compared vectors are both empty",
+         requires=["fv-message-none-in-live-contexts"]),
+    dict(id="fv-scope-join", fn=r"^lm_ots::signing::optimize_message_hash$", site=r"call:core::result::Result::unwrap", operand=r"^scope",
+         reason="scope() returns Err only if a worker panicked; every panic-capable site of the worker and of what it calls is enumerated and discharged in this same run",
+         requires=["fv-scope-and-channel"]),
+    dict(id="fv-send", fn=r"^lm_ots::signing::optimize_message_hash::\{closure#1\}::\{closure#0\}$", site=r"call:core::result::Result::unwrap", operand=r"^send",
+         reason="send on an unbounded channel fails only when the receiver is gone; the receiver outlives the scope",
+         requires=["fv-scope-and-channel"]),
+
 ]
